@@ -28,6 +28,10 @@ pub struct SemCfg {
     pub component_weight: usize,
     pub plain_attrs: bool,
     pub children: bool,
+    /// user bindings named like generated ones take part in expressions
+    pub colliding: bool,
+    /// computed v-model arguments (D10's shape) may be generated
+    pub vmodel_dynamic_arg: bool,
 }
 
 impl Default for SemCfg {
@@ -50,6 +54,8 @@ impl Default for SemCfg {
             component_weight: 4,
             plain_attrs: true,
             children: true,
+            colliding: false,
+            vmodel_dynamic_arg: true,
         }
     }
 }
@@ -57,6 +63,11 @@ impl Default for SemCfg {
 pub const HTML_TAGS: &[&str] = &[
     "div", "span", "input", "select", "textarea", "a", "p", "button", "svg", "circle",
     "linearGradient",
+];
+pub const COLLIDING: &[&str] = &[
+    "_createVNode", "_createTextVNode", "_Fragment", "_isSlot", "_slot", "_slot2", "_mergeProps",
+    "_transformOn", "_isVNode", "_resolveComponent", "_resolveDirective", "_withDirectives", "s", "_x",
+    "_vShow", "_vModelText",
 ];
 pub const VALUE_KINDS: &[&str] = &[
     "str", "num", "bool", "null", "undef", "arr", "slotsobj", "vnode", "fn", "obj",
@@ -264,6 +275,12 @@ impl<'a, 'b> Sem<'a, 'b> {
             ]),
         ));
         bound.push(("dyn1".into(), v_str("dynArg")));
+        if self.cfg.colliding {
+            for n in COLLIDING {
+                bound.push((n.to_string(), v_str(&format!("user:{n}"))));
+            }
+            bound.push(("$event".into(), v_obj(vec![("p", v_str("$event.p-initial"))])));
+        }
         self.env.bound = bound;
         let (u1, k) = any_value(self.c, "u1");
         self.value_kinds.push(("u1".into(), k));
@@ -304,6 +321,10 @@ impl<'a, 'b> Sem<'a, 'b> {
     pub fn expr(&mut self, depth: usize) -> Ex {
         if self.cfg.logging {
             return self.logging_expr();
+        }
+        if self.cfg.colliding && self.c.chance(1, 4) {
+            self.label("colliding-user-name");
+            return Ex::src(self.c.choose(COLLIDING), Cat::IdentBound);
         }
         let jsx_w = if depth < self.cfg.max_depth { 2 } else { 0 };
         let w = self.c.weighted(&[5, 3, 4, 4, 3, 2, 2, 2, 2, 2, jsx_w, jsx_w]);
@@ -897,10 +918,14 @@ impl<'a, 'b> Sem<'a, 'b> {
     fn vmodel(&mut self, tag: &Tag, used_args: &mut Vec<String>, array_only: bool) -> Option<VModel> {
         let comp = tag.is_component();
         // targets
-        let target = self
-            .c
-            .choose(&["m1", "m2", "mo.p", "mo[mk]", "marr[0]", "mo.deep.q"])
-            .to_string();
+        let target = if self.cfg.colliding && self.c.chance(1, 4) {
+            self.label("vmodel-target-$event");
+            "$event.p".to_string()
+        } else {
+            self.c
+                .choose(&["m1", "m2", "mo.p", "mo[mk]", "marr[0]", "mo.deep.q"])
+                .to_string()
+        };
         let base = target.split(['.', '[']).next().unwrap().to_string();
         if !self.vm_targets.contains(&base) {
             self.vm_targets.push(base);
@@ -914,7 +939,10 @@ impl<'a, 'b> Sem<'a, 'b> {
         let mut suffix_mods: Vec<String> = vec![];
         let mut array = None;
         // argument (components only - the element clause of the statement has none)
-        let arg_form = if comp { self.c.pick(4) } else { 0 };
+        let mut arg_form = if comp { self.c.pick(4) } else { 0 };
+        if arg_form == 3 && !self.cfg.vmodel_dynamic_arg {
+            arg_form = 2;
+        }
         // 0 none, 1 `:arg` (not in v-models), 2 static second element, 3 dynamic second element
         let mod_form = self.c.pick(3); // 0 none, 1 suffix, 2 array list
         let mods = vec![self.c.choose(&["trim", "lazy", "number"]).to_string()];
@@ -1138,9 +1166,21 @@ impl<'a, 'b> Sem<'a, 'b> {
     // ---------------------------------------------------------------------------------------
     // module assembly
 
-    /// (main source, reference sources). Two reference variants are returned when the case
-    /// contains text made only of spaces/tabs (both readings accepted, see C02).
+    /// (main source, reference sources) for a list of exported JSX statements.
     pub fn assemble(&self, stmts: &[(String, Node)]) -> (String, Vec<String>) {
+        let items: Vec<Item> = stmts
+            .iter()
+            .map(|(name, node)| Item::Site {
+                tpl: format!("export const {name} = @H@;"),
+                node: node.clone(),
+            })
+            .collect();
+        self.assemble_items(&items)
+    }
+
+    /// (main source, reference sources). Several reference variants are returned when the case
+    /// contains text made only of spaces/tabs, or v-slots (both readings accepted).
+    pub fn assemble_items(&self, items: &[Item]) -> (String, Vec<String>) {
         let mut head = String::new();
         head.push_str(&self.env.import_line());
         head.push('\n');
@@ -1176,13 +1216,23 @@ impl<'a, 'b> Sem<'a, 'b> {
                     prelude.push_str("const marr = [\"marr0-initial\", 1];\n");
                     readers.push("marr");
                 }
+                "$event" => readers.push("$event"),
                 _ => {}
             }
         }
         let mut main = head.clone();
         main.push_str(&prelude);
-        for (name, node) in stmts {
-            main.push_str(&format!("export const {name} = {};\n", node.jsx()));
+        for it in items {
+            match it {
+                Item::Raw(s) => {
+                    main.push_str(s);
+                    main.push('\n');
+                }
+                Item::Site { tpl, node } => {
+                    main.push_str(&tpl.replace("@H@", &node.jsx()));
+                    main.push('\n');
+                }
+            }
         }
         let reader = if readers.is_empty() {
             String::new()
@@ -1217,8 +1267,17 @@ impl<'a, 'b> Sem<'a, 'b> {
                 reference.push_str(&cfg.js());
                 reference.push('\n');
                 reference.push_str(&prelude);
-                for (name, node) in stmts {
-                    reference.push_str(&format!("export const {name} = {};\n", node.reference()));
+                for it in items {
+                    match it {
+                        Item::Raw(s) => {
+                            reference.push_str(s);
+                            reference.push('\n');
+                        }
+                        Item::Site { tpl, node } => {
+                            reference.push_str(&tpl.replace("@H@", &node.reference()));
+                            reference.push('\n');
+                        }
+                    }
                 }
                 reference.push_str(&reader);
                 refs.push(reference);
@@ -1227,4 +1286,13 @@ impl<'a, 'b> Sem<'a, 'b> {
         WS_ONLY_DROP.with(|w| w.set(false));
         (main, refs)
     }
+}
+
+/// One top-level item of an assembled module.
+#[derive(Clone, Debug)]
+pub enum Item {
+    /// plain code, identical in both programs
+    Raw(String),
+    /// template with `@H@` holes filled by a JSX node / its reference lowering
+    Site { tpl: String, node: Node },
 }
